@@ -38,7 +38,7 @@ ZL = np.array([0.05, 0.4, 1.1, 2.3, 3.9, 5.0, 7.5, 10.0])
 def closed_cases(tier):
     grids = [((8, 6), (80.0, 90.0)), ((7, 5), (70.0, 75.0))] if tier == "quick" else [((8, 6), (80.0, 90.0)), ((6, 8), (90.0, 80.0)), ((7, 5), (70.0, 75.0)), ((5, 8), (75.0, 80.0))]
     halos = (0.0, None, 13.0, 20.0) if tier == "quick" else sl.HALOS
-    lvsets = ([3], [0, 2, 5], [7, 1]) if tier == "quick" else ([3], [0, 2, 5], [7, 1], 4, [6, 5, 4, 0])
+    lvsets = ([3], [0, 2, 5], [7, 1], [2, 5, 2]) if tier == "quick" else ([3], [0, 2, 5], [7, 1], 4, [6, 5, 4, 0], [2, 5, 2], [3, 3])  # incl. a node requested twice
     # [64, 4] / [4, 64]: the request exceeds the padded grid in ONE direction only - documented answer: all modes in both
     for pn, g, h, m, mp, fp, lv in itertools.product(CONST, grids, halos, ("full", [4, 4], [64, 64], [64, 4], [4, 64]), ("zero", "grid", "off"), (False, True), lvsets):
         nx, ny = g[0]
@@ -159,7 +159,7 @@ def case_order(case):
     for n in ns:
         z = np.linspace(z0, zt, n + 1)
         prof = tuple(np.full(n + 1, x) for x in pv)
-        lv = [n // 2, n]
+        lv = [n // 2, n, n // 2]  # the middle node is requested twice: both slices must converge
         _, c, f = S0(q, z, prof, dom, lv, modes=(nx, ny), halo=0.0, precision="double")
         Hp = np.fft.fft2(c, axes=(1, 2))
         Hq = np.fft.fft2(f, axes=(1, 2))
@@ -195,7 +195,7 @@ def case_order(case):
             idx = np.unravel_index(np.argmin(r), r.shape)
             v.append({"sub": "order", "sig": "order/ratio",
                       "msg": "n=%d -> %d layers: error ratio %.2f < 6.5 for a resolved mode (%s of the %s level; errors %.3e -> %.3e); config %s"
-                      % (ns[k], ns[k + 1], r[idx], "p" if idx[1] == 0 else "q", "middle" if idx[0] == 0 else "top", a[idx], b[idx], core.canon(case))})
+                      % (ns[k], ns[k + 1], r[idx], "p" if idx[1] == 0 else "q", ("middle", "top", "middle (second request)")[idx[0]], a[idx], b[idx], core.canon(case))})
     return {"v": v[:3], "nt": bool(ok.sum() >= 4 and judged > 0), "n": len(ns),
             "obs": {"resolved_modes": int(ok.sum()), "mode_pairs_judged": judged, "min_ratio": None if not np.isfinite(minratio) else round(minratio, 2), "ladder": ns}}
 
@@ -249,6 +249,25 @@ def case_field_order(case):
     return {"v": v[:3], "nt": True, "n": 3, "obs": {"errors": [["%.2e" % x for x in row] for row in errs.tolist()]}}
 
 
+def case_cache_race(case):
+    """the closed form through the result cache while two pool workers store their entries at the same time: analytic-mode
+    footprints for two towers, each worker with its own cache object on one directory, every preemption-bounded interleaving
+    of their file operations; every answer - the workers' and a later session's - is the closed form for ITS tower"""
+    from vf import cacherace
+
+    nx, ny, dom = 8, 6, (80.0, 90.0)
+    pv = CONST[case["prof"]]
+    z = ZL
+    prof = tuple(np.full(len(z), x) for x in pv)
+    lv = [2, 5]
+    reqs, expect = {}, {}
+    for label, mp in (("tower-a", (20.0, 30.0)), ("tower-b", (50.0, 45.0))):
+        reqs[label] = dict(srf_flx=np.zeros((ny, nx)), z=z, profiles=prof, domain=dom, levels=lv, modes=(8, 6), halo=case["halo"], meas_pt=mp, footprint=True, analytic=True, precision="double")
+        expect[label] = halfspace.solve(np.zeros((ny, nx)), dom, z[lv] - z[0], pv, (8, 6), case["halo"], meas_pt=mp, footprint=True)
+    sl.solver()(**reqs["tower-a"])  # load the compiled kernels once, before the workers are forked
+    return cacherace.solver_pair(reqs, expect, 1e-10, "analytic footprints of two towers (profile set %s, halo %r)" % (case["prof"], case["halo"]))
+
+
 def run(ctx):
     os.environ["VERIF_SEED"] = str(ctx.seed)
     core.warm_numba()
@@ -259,7 +278,9 @@ def run(ctx):
     )
     callforms.run_solver_forms(ctx)
     errorpaths.run(ctx, case_closed, [c for c in closed_cases(ctx.tier) if not c['footprint'] and c['levels'] == [0, 2, 5]][:2])
+    errorpaths.run_threaded(ctx, case_order, list(order_cases(ctx.tier))[:1], threads=(2, 4))
     ctx.run_cases(case_closed, closed_cases(ctx.tier), sub="closed-form")
+    core.run_forked(ctx, case_cache_race, [{"prof": "aniso", "halo": 13.0}], sub="closed form through a cache two workers write at once (all interleavings, <= 2 preemptions)", nproc=4, timeout=1800)
     ctx.run_cases(case_mean_profile, [{"prof": p, "halo": h} for p in CONST for h in (0.0, 13.0)], sub="mean-profile", chunksize=1)
     ctx.run_cases(case_field_order, field_order_cases(ctx.tier), sub="order on returned fields, single and double precision", chunksize=1)
     res = ctx.run_cases(case_order, order_cases(ctx.tier), sub="order", chunksize=1)
